@@ -76,6 +76,9 @@ def gen_case(rng, supervised):
   alpha = float(rng.choice([0.01, 0.05, 0.25, 1.0]))
   if supervised:
     n_c = int(rng.integers(6, 14))
+    if rng.random() < 0.25:
+      # labels from which NO dissimilar pair can be drawn: a single class, or one labelled class next to unlabelled samples
+      y = np.zeros_like(y) if rng.random() < 0.5 else np.where(y == y[0], int(y[0]), -1)
     cons = Constraints(y).positive_negative_pairs(n_c, random_state=seed)
     pairs, lab = gen.documented_pairs(X, cons)
   else:
@@ -125,6 +128,7 @@ def gen_case(rng, supervised):
         'M0': dym(M0), 'P0': dym(P0), 'pts': dym(pts) if prior_kind == 'covariance' else [], 'v': dym(V), 'y': [int(v) for v in lab], 'balance': dy(balance), 'alpha': dy(alpha),
         'L': [], 'Mstar': [], 'cholStar': [], 'logsStar': [], 'has_star': False, 'cholM': [], 'cholE': [], 'has_cholE': False, 'W': [], 'cholW': [], 'has_W': False, 'logsM': [], 'logsW': []}
   RE = chol_or_none(E)
+  ev['input_well_conditioned'] = bool(RE is not None and np.linalg.cond((E + E.T) / 2.0) < 100.0)
   if RE is not None:
     ev['cholE'], ev['has_cholE'] = dym(RE), True
   ev['solver_gave_up'] = False
